@@ -131,6 +131,7 @@ func (s *BadSmellListener) EnterInterfaceMethodDeclaration(ctx *InterfaceMethodD
 				paramValue := paramContext.VariableDeclaratorId().(*VariableDeclaratorIdContext).Identifier().GetText()
 				methodParams = append(methodParams, core_domain.CodeProperty{TypeValue: paramType, TypeType: paramValue})
 			}
+			methodParams = appendLastFormalParameter(methodParams, allFormal)
 		}
 	}
 
@@ -210,6 +211,7 @@ func (s *BadSmellListener) EnterMethodDeclaration(ctx *MethodDeclarationContext)
 
 				localVars[paramValue] = paramType
 			}
+			methodParams = appendLastFormalParameter(methodParams, allFormal)
 		}
 	}
 
@@ -433,4 +435,16 @@ func warpTargetFullType(targetType string) string {
 	}
 
 	return ""
+}
+
+// appendLastFormalParameter adds the varargs parameter (Object... rest), which the grammar keeps apart from the others.
+func appendLastFormalParameter(methodParams []core_domain.CodeProperty, allFormal *FormalParameterListContext) []core_domain.CodeProperty {
+	last := allFormal.LastFormalParameter()
+	if last == nil {
+		return methodParams
+	}
+	lastContext := last.(*LastFormalParameterContext)
+	paramType := lastContext.TypeType().GetText()
+	paramValue := lastContext.VariableDeclaratorId().(*VariableDeclaratorIdContext).Identifier().GetText()
+	return append(methodParams, core_domain.CodeProperty{TypeValue: paramType, TypeType: paramValue})
 }
